@@ -514,6 +514,16 @@ func caseRead(r *mon.Rec, idx int, gray bool) {
 			continue
 		}
 		frames = append(frames, b)
+		// the very same frame once more (a sender that retransmits an unchanged message with a constant IP
+		// identification, a bridge that hands the frame up twice): a frame like any other
+		if rng.IntN(10) == 0 && cls != refframe.Gray {
+			frames = append(frames, append([]byte{}, b...))
+			kinds += why[:2] + "=,"
+			if cls == refframe.Deliver {
+				want = append(want, d)
+			}
+			r.Count("frames_repeated_verbatim", 1)
+		}
 	}
 	fc := &fakeConn{frames: frames, endErr: errScript}
 	nfaults := 0
